@@ -324,8 +324,12 @@ func TestC13(t *testing.T) {
 		}
 		rep.Executions++
 		rep.States++
+		rep.Transitions++ // one encode -> decode pass
 		if len(c.Parts) > 1 {
 			rep.Nontrivial++
+		}
+		if rep.Executions%997 == 1 {
+			rep.Sample(c, 6)
 		}
 		var v string
 		if c.Cut > 0 || c.DLen != 0 {
